@@ -309,6 +309,43 @@ example :
     applySetter { env with pwUid := some [47, 117] } .file [126] = some (.str (some [47, 117])) := by
   decide +kernel
 
+/-- **filename through cf_set / cf_get = the expansion, of any length**: on a reachable writable
+    CF_FILE key, `cf_set(k, "~/rest")` then `cf_get(k)` gives `$HOME ++ "/rest"` — the whole of
+    it, whatever the lengths of `$HOME` and `rest` (no bound appears anywhere in the statement);
+    likewise `~user/rest` with the passwd directory. -/
+theorem set_get_filename_expansion (env : Env) (cf : Cf δ) (st : Store δ) {sect key : Bytes} {s : Sect δ}
+    {k : Key} {i : Nat} (hr : Reaches cf sect key s k i) (hs : k.setter = some .file)
+    (hg : k.getter = some .str) (hro : k.readOnly = false) (hnr : (k.noReload && cf.loaded) = false)
+    {loc : Loc} (hd : getDest (sectBase cf s sect) k = some loc) :
+    (∀ h rest, env.home = some h →
+      cfGet env cf (cfSet env cf st sect key (126 :: 47 :: rest)).1 sect key = some (h ++ 47 :: rest)) ∧
+    (∀ user dir rest, user ≠ [] → (∀ x ∈ user, x ≠ 47) → env.pwNam user = some dir →
+      cfGet env cf (cfSet env cf st sect key (126 :: user ++ 47 :: rest)).1 sect key
+        = some (dir ++ 47 :: rest)) := by
+  constructor
+  · intro h rest hh
+    have hv := (set_filename env (126 :: 47 :: rest)).2 h rest hh
+    have := set_then_get env cf st hr hs hg hro hnr hd hv
+    simpa [applyGetter, asStr] using this.2
+  · intro user dir rest hu hsl hp
+    have hv := (set_filename_user env user rest hu hsl).1
+    rw [hp] at hv
+    have := set_then_get env cf st hr hs hg hro hnr hd hv
+    simpa [applyGetter, asStr] using this.2
+
+/-- one section `m` with one CF_FILE key `f` -/
+def fnCf : Cf Unit :=
+  { sects := [{ name := [109],
+                keys := [{ name := [102], setter := some Ty.file, getter := some Ty.str, ofs := 0 }] }],
+    base := none, loaded := false }
+
+/-- HOME of 1500 bytes, `~/` + 1500 bytes: 3001 bytes come back -/
+example :
+    (cfGet { exEnv with home := some (List.replicate 1500 72) } fnCf
+      (cfSet { exEnv with home := some (List.replicate 1500 72) } fnCf exSt [109] [102]
+        (126 :: 47 :: List.replicate 1500 120)).1 [109] [102]).map List.length = some 3001 := by
+  decide +kernel
+
 /-- **round trip, lookup**: every spelling (any letter case) of a listed name stores its value,
     and the getter renders the name as listed (names distinct ignoring case, values distinct) -/
 theorem set_get_roundtrip_lookup (tbl : List (Bytes × Int))
